@@ -90,7 +90,7 @@ func drawSeedRaw(rt *rapid.T, examples []seedProg) seedProg {
 		g := &c05Gen{budget: rapid.IntRange(3, 16).Draw(rt, "budget"), pick: pick, fnDecls: rapid.Bool().Draw(rt, "functionDeclarations")}
 		return seedProg{Src: g.program(rapid.IntRange(1, 3).Draw(rt, "depth"), rapid.IntRange(1, 3).Draw(rt, "top")), Kind: "control"}
 	case 1:
-		g := &c03Gen{budget: rapid.IntRange(4, 25).Draw(rt, "budget"), pick: pick}
+		g := &c03Gen{budget: rapid.IntRange(4, 25).Draw(rt, "budget"), pick: pick, jumps: rapid.Bool().Draw(rt, "jumps")}
 		return seedProg{Src: g.program(rapid.IntRange(1, 4).Draw(rt, "depth"), rapid.IntRange(2, 6).Draw(rt, "top")), Kind: "scope"}
 	case 2:
 		g := &c11Gen{pick: pick}
@@ -107,7 +107,7 @@ func drawSeedRaw(rt *rapid.T, examples []seedProg) seedProg {
 		}
 		return seedProg{Src: g.program(rapid.IntRange(2, 10).Draw(rt, "actions"), fault), Kind: "objects"}
 	case 4:
-		src, _ := c04ReturnSkeleton(pick, rapid.IntRange(3, 14).Draw(rt, "budget"), rapid.IntRange(1, 3).Draw(rt, "depth"))
+		src, _ := c04ReturnSkeleton(pick, rapid.IntRange(3, 14).Draw(rt, "budget"), rapid.IntRange(1, 3).Draw(rt, "depth"), true)
 		return seedProg{Src: src, Kind: "returns"}
 	case 5:
 		f := rapid.SampledFrom(c06Faults).Draw(rt, "fault")
